@@ -94,10 +94,36 @@ def okey(o):
     return json.dumps(o, sort_keys=True)
 
 
+class _SubInt(int):
+    """a host number type derived from int (an id type, a unit type)"""
+
+
+class _SubFloat(float):
+    """a host number type derived from float (numpy.float64 is one)"""
+
+
+class _SubStr(str):
+    """a host text type derived from str"""
+
+
 def var_value(o):
     if 'd' in o:
         return D(*o['d'])
-    return o['v']
+    v = o['v']
+    sub = o.get('sub')
+    if sub is None or isinstance(v, bool) or v is None:
+        return v
+    # the same value as an instance of a SUBCLASS of its type: it is that number / text all the same
+    if isinstance(v, int):
+        if sub == 'enum':
+            import enum
+            return enum.IntEnum('Code', {'MEMBER': v}).MEMBER
+        return _SubInt(v)
+    if isinstance(v, float):
+        return _SubFloat(v)
+    if isinstance(v, str):
+        return _SubStr(v)
+    return v
 
 
 def step(x, k):
@@ -421,6 +447,23 @@ def cases(rng, ctx):
         t = [rng.choice(members), rng.choice(members), rng.choice(G) if rng.random() < 0.5 else rng.choice(members)]
         rng.shuffle(t)
         out.append({'kind': 'triple', 'a': t[0], 'b': t[1], 'c': t[2], 'tz': None})
+    # (2b) host values that are instances of SUBCLASSES of int / float / str (enum members, unit types, numpy-style floats):
+    # a seeded share of the pairs and triples above with one or more operands re-typed
+    def retype(o):
+        if 'v' in o and not isinstance(o['v'], bool) and isinstance(o['v'], (int, float, str)):
+            o2 = dict(o)
+            o2['sub'] = rng.choice(['sub', 'sub', 'enum'])
+            return o2
+        return o
+    base = [c for c in out if c.get('tz') is None]
+    for c in rng.sample(base, min(len(base), (4000 if thorough else 400) * scale)):
+        c2 = dict(c)
+        keys = ['a', 'b'] + (['c'] if c['kind'] == 'triple' else [])
+        for k in keys:
+            if rng.random() < 0.6:
+                c2[k] = retype(c[k])
+        if any(c2[k] is not c[k] for k in keys):
+            out.append(c2)
     # (3) the date-related part once more under a process time zone with daylight saving
     zones = TZS if thorough else [TZ_MAIN]
     for tz in zones:
